@@ -40,12 +40,23 @@ class _Canon(ast.NodeTransformer):
             if f == 'flatnonzero' and len(node.args) == 1:
                 w = ast.Call(func=ast.Attribute(value=ast.Name(id='np', ctx=ast.Load()), attr='where', ctx=ast.Load()),
                              args=node.args, keywords=[])
-                return ast.copy_location(ast.Subscript(value=w, slice=ast.Constant(value=0), ctx=ast.Load()), node)
+                new = ast.Subscript(value=w, slice=ast.Constant(value=0), ctx=ast.Load())
+                new._canon_origin = 'flatnonzero'       # equal to where(m)[0] for 1-D masks only
+                return ast.copy_location(new, node)
+            if f == 'array' and len(node.args) == 1 and not node.keywords and isinstance(node.args[0], ast.Name):
+                # np.array(name) is spelled name.copy() FOR RULE MATCHING (both make a fresh
+                # array from an ndarray).  The node is tagged: sa/normal.py keeps the two apart,
+                # because they differ when `name` is a list.
+                new = ast.Call(func=ast.Attribute(value=node.args[0], attr='copy', ctx=ast.Load()), args=[], keywords=[])
+                new._from_np_array = True
+                return ast.copy_location(new, node)
         if isinstance(node.func, ast.Attribute) and node.func.attr == 'reshape':
             a = [u(x) for x in node.args]
             if a in (['-1', '1'], ['(-1, 1)']):
                 sl = ast.Tuple(elts=[ast.Slice(lower=None, upper=None, step=None), ast.Constant(value=None)], ctx=ast.Load())
-                return ast.copy_location(ast.Subscript(value=node.func.value, slice=sl, ctx=ast.Load()), node)
+                new = ast.Subscript(value=node.func.value, slice=sl, ctx=ast.Load())
+                new._canon_origin = 'reshape'           # equal to x[:, None] for 1-D x only
+                return ast.copy_location(new, node)
         return node
 
     def visit_UnaryOp(self, node):
